@@ -37,3 +37,4 @@ func specReady() bool {
 //@ func GetFace
 //@   pure
 //@   trusted
+//@   ensures result != nil ==> result.FaceID() == id
